@@ -75,6 +75,8 @@ def make_spec(p):
                 {"kind": "reaction", "name": "v1", "args": ["k1", "x"], "expr": ["mul", N("k1"), N("x")], "stoich": {"x": -1, "y": "n"}},
                 {"kind": "reaction", "name": "v2", "args": ["k2", "y", "dv"], "expr": ["add", ["mul", N("k2"), N("y")], ["mul", V(0.1), N("dv")]],
                  "stoich": {"y": {"args": ["m"], "expr": ["mul", V(-1.0), N("m")]}}},
+                {"kind": "reaction", "name": "vz", "args": ["k2", "x"], "expr": ["mul", N("k2"), N("x")],
+                 "stoich": {"x": 0.0, "y": {"args": ["m"], "expr": ["sub", N("m"), N("m")]}}},
                 {"kind": "surrogate", "name": "s", "args": ["x"], "outputs": ["sf", "sv"],
                  "exprs": [["mul", V(0.1), N("x")], ["add", N("x"), V(1.0)]], "stoich": {"sf": {"y": -0.5}}},
                 {"kind": "readout", "name": "ro", "args": ["x", "y"], "expr": ["div", N("x"), ["add", N("x"), N("y")]]},
@@ -96,6 +98,8 @@ def make_spec(p):
             {"kind": "reaction", "name": "v1", "args": ["k1", "x"], "expr": ["mul", N("k1"), N("x")], "stoich": {"x": -1, "y": "n"}},
             {"kind": "reaction", "name": "v2", "args": ["dp", "y", "dv"], "expr": ["add", ["mul", N("dp"), N("y")], ["mul", V(0.1), N("dv")]],
              "stoich": {"y": {"args": ["m"], "expr": ["mul", V(-1.0), N("m")]}}},
+            {"kind": "reaction", "name": "vz", "args": ["k2", "x"], "expr": ["mul", N("k2"), N("x")],
+             "stoich": {"x": 0.0, "y": {"args": ["m"], "expr": ["sub", N("m"), N("m")]}}},
             {"kind": "surrogate", "name": "s", "args": ["x"], "outputs": ["sf", "sv"],
              "exprs": [["mul", V(0.1), N("x")], ["add", N("x"), V(1.0)]], "stoich": {"sf": {"y": -0.5}}},
             {"kind": "readout", "name": "ro", "args": ["x", "y"], "expr": ["div", N("x"), ["add", N("x"), N("y")]]},
@@ -104,8 +108,8 @@ def make_spec(p):
 
 
 VARS = ["x", "y"]
-FLUXES = ["v0", "v1", "v2", "sf"]
-RXNS = ["v0", "v1", "v2"]
+FLUXES = ["v0", "v1", "v2", "vz", "sf"]
+RXNS = ["v0", "v1", "v2", "vz"]  # vz: coefficients that are exactly zero (a literal 0 and a computed m - m)
 
 _PRISTINE = {}
 
